@@ -27,12 +27,32 @@ func callCommon(in ssa.Instruction) *ssa.CallCommon {
 
 // staticCallee returns the statically known callee of a call/go/defer
 // instruction (function, method, closure made in place), else nil.
+// theProg: the loaded program (set with the static-site index), for resolving calls that have exactly one
+// possible callee.
+var theProg *Program
+
+// staticCallee: the function a call instruction calls - its static callee; the method behind a compiler-made
+// wrapper of a method value ("f := op.CommitFh; f()") or method expression; or, for a call through an interface or
+// a function value, the callee when the call graph knows exactly one and it is a go-nfsd function.
 func staticCallee(in ssa.Instruction) *ssa.Function {
 	c := callCommon(in)
 	if c == nil {
 		return nil
 	}
-	return c.StaticCallee()
+	f := c.StaticCallee()
+	if f == nil && theProg != nil {
+		if _, isB := c.Value.(*ssa.Builtin); !isB {
+			if cands := theProg.Callees(in); len(cands) == 1 && (IsRepoFunc(cands[0]) || cands[0].Synthetic != "") {
+				f = cands[0]
+			}
+		}
+	}
+	if f != nil && f.Synthetic != "" && f.Parent() == nil {
+		if t := wrappedMethod(f); t != nil {
+			return t
+		}
+	}
+	return f
 }
 
 // Callees returns every possible callee of the call instruction: the static
@@ -119,6 +139,13 @@ func (p *Program) CallsIn(fn *ssa.Function, pred func(*ssa.Function) bool) []ssa
 				if pred(c) {
 					out = append(out, in)
 					break
+				}
+				// a method reached through the compiler-made wrapper of a method value / expression
+				if c.Synthetic != "" && c.Parent() == nil {
+					if t := wrappedMethod(c); t != nil && pred(t) {
+						out = append(out, in)
+						break
+					}
 				}
 			}
 		}
@@ -561,6 +588,7 @@ func ctxField(fa *ssa.FieldAddr, base ssa.Value) ssa.Value {
 }
 
 func buildStaticSites(p *Program) {
+	theProg = p
 	fieldWriteIdx = map[string][]FieldWrite{}
 	for _, fn := range p.RepoFuncs() {
 		for _, w := range FieldWrites(fn) {
